@@ -908,7 +908,7 @@ fn probe_sol(contract: &str, lead: usize) -> String {
 }
 
 /// candidate directories of a C14 working directory: (directory kind, file, leading lines)
-const CANDIDATES: [(&str, &str, usize); 3] = [("contracts", "InDefault.sol", 1), ("tdir", "InToml.sol", 2), ("pdir", "InFlag.sol", 3)];
+const CANDIDATES: [(&str, &str, usize); 3] = [("contracts", "InDefault.sol", 1), ("TomlDir", "InToml.sol", 2), ("FlagDir", "InFlag.sol", 3)];
 
 fn layout_c14(root: &Path, contracts: bool) {
     write_file(&root.join("Root.sol"), probe_sol("Root", 0).as_bytes(), 0o644);
@@ -1362,14 +1362,14 @@ fn c14_bin(r: &mut CheckResult, bin: &Path, doc: &Documented, tier: &str, rng: &
         sels.push(s);
     }
     let flags: Vec<Option<String>> = if thorough {
-        vec![None, Some("pdir".into()), Some("./pdir/".into()), Some("@ABS/pdir".into())]
+        vec![None, Some("FlagDir".into()), Some("./FlagDir/".into()), Some("@ABS/FlagDir".into())]
     } else {
-        vec![None, Some("pdir".into())]
+        vec![None, Some("FlagDir".into())]
     };
     let tpaths: Vec<Option<String>> = if thorough {
-        vec![None, Some("tdir".into()), Some("./contracts".into()), Some("@ABS/tdir".into()), Some("./tdir/".into()), Some("tdir/".into())]
+        vec![None, Some("TomlDir".into()), Some("./contracts".into()), Some("@ABS/TomlDir".into()), Some("./TomlDir/".into()), Some("TomlDir/".into())]
     } else {
-        vec![None, Some("tdir".into()), Some("./contracts".into()), Some("@ABS/tdir".into())]
+        vec![None, Some("TomlDir".into()), Some("./contracts".into()), Some("@ABS/TomlDir".into())]
     };
     let mut cases: Vec<BinCase> = vec![];
     for flag in &flags {
@@ -1388,7 +1388,7 @@ fn c14_bin(r: &mut CheckResult, bin: &Path, doc: &Documented, tier: &str, rng: &
     }
     // --path given explicitly but spelled like the default directory, toml path pointing elsewhere: --path wins
     for flag in ["./contracts", "contracts", "./contracts/"] {
-        for tp in ["tdir", "./tdir", "@ABS/tdir"] {
+        for tp in ["TomlDir", "./TomlDir", "@ABS/TomlDir"] {
             for si in [0, n_fixed] {
                 if si < sels.len() {
                     cases.push(BinCase { flag: Some(flag.into()), toml: true, verbatim: false, tpath: Some(tp.into()), contracts: true, pre: false, lists: sels[si].clone() });
@@ -1422,7 +1422,7 @@ fn c14_bin(r: &mut CheckResult, bin: &Path, doc: &Documented, tier: &str, rng: &
                     } else {
                         lists[i].push(b.clone());
                     }
-                    cases.push(BinCase { flag: Some("pdir".into()), toml: true, verbatim: false, tpath: Some("tdir".into()), contracts: true, pre, lists });
+                    cases.push(BinCase { flag: Some("FlagDir".into()), toml: true, verbatim: false, tpath: Some("TomlDir".into()), contracts: true, pre, lists });
                 }
             }
         }
@@ -1445,7 +1445,7 @@ fn c14_bin(r: &mut CheckResult, bin: &Path, doc: &Documented, tier: &str, rng: &
     }
     r.extra.push(("binary_runs".into(), J::Num(cases.len() as i64)));
     r.extra.push(("binary_runs_skipped".into(), J::Num(skipped)));
-    let nonempty = oracle.hits.iter().filter(|((d, _), h)| d == "tdir" && !h.is_empty()).count();
+    let nonempty = oracle.hits.iter().filter(|((d, _), h)| d == "TomlDir" && !h.is_empty()).count();
     r.extra.push(("patterns_with_findings_on_probe".into(), J::Num(nonempty as i64)));
 }
 
@@ -1470,7 +1470,7 @@ pub fn run_c14(tier: &str, seed: u64) -> CheckResult {
     });
     r.extra.push(("documented_names".into(), J::Obj(CATS.iter().map(|c| (c.tag().to_string(), J::arr_s(doc.names[c].keys().cloned()))).collect())));
     r.extra.push(("names_per_source".into(), J::Obj(doc.per_source.iter().map(|(s, n)| (s.clone(), J::Num(*n as i64))).collect())));
-    r.rule = "name table: one case = one (category, spelling) call of the real str_to_*; non-trivial = distinct spellings (documented names in fixed + seeded/all casings; junk and near-miss names that must be rejected). binary: one case = one run of the real solstat binary in a fresh working directory that holds DIFFERENT probe files in ./contracts, ./tdir (toml path), ./pdir (--path) and ./ ; non-trivial = distinct (flag, toml, toml path, ./contracts present, pattern lists) combinations; the directory and the patterns are observed twice: hook H1 (VERIF-OPTS) and the file:line entries of solstat_report.md compared with the union of the library's per-pattern findings on the expected directory".into();
+    r.rule = "name table: one case = one (category, spelling) call of the real str_to_*; non-trivial = distinct spellings (documented names in fixed + seeded/all casings; junk and near-miss names that must be rejected). binary: one case = one run of the real solstat binary in a fresh working directory that holds DIFFERENT probe files in ./contracts, ./TomlDir (toml path), ./FlagDir (--path) and ./ ; non-trivial = distinct (flag, toml, toml path, ./contracts present, pattern lists) combinations; the directory and the patterns are observed twice: hook H1 (VERIF-OPTS) and the file:line entries of solstat_report.md compared with the union of the library's per-pattern findings on the expected directory".into();
     r.bound = format!(
         "{} documented names x (7 fixed casings + {} seeded casings, or all 2^letters when fewer); all pairs for distinctness; every get_all_* entry for reachability; --path in {} forms x ./contracts present/absent x (no toml | sample Solstat.toml verbatim | toml path in {} forms x {} pattern selections) + --path spelled like the default (./contracts, contracts, ./contracts/) x toml path elsewhere in 3 forms + unknown-name runs",
         doc.names.values().map(|m| m.len()).sum::<usize>(),
